@@ -3,6 +3,7 @@ package main
 // Harness for C13 (merging and charting count every stored report exactly once).
 
 import (
+	"bytes"
 	"context"
 	realjson "encoding/json"
 	"errors"
@@ -259,6 +260,14 @@ func VC13_merge() {
 	var stored []telemetry.Report
 	for i := 0; i < k; i++ {
 		r := telemetry.Report{Week: day, X: float64(i+1) / 8, Config: "v1.2.3"}
+		// zero or one program report; the counter key differs from report to report
+		if vrt.Bool() {
+			r.Programs = []*telemetry.ProgramReport{{Program: c13programs[0], Version: c13versions[0], GOOS: c13goos[0], GOARCH: c13goarch[0], GoVersion: c13goversion[0],
+				Counters: map[string]int64{c13counters[i%len(c13counters)]: int64(vrt.U32())}}}
+			if vrt.Bool() {
+				r.Programs[0].Stacks = map[string]int64{"s\nf" + string(rune('0'+i)): 1}
+			}
+		}
 		stored = append(stored, r)
 		c13put(api.Upload, day+"/"+string(rune('a'+i))+".json", r)
 	}
@@ -274,7 +283,8 @@ func VC13_merge() {
 		if !ok {
 			return errors.New("bad json")
 		}
-		*(dst.(*telemetry.Report)) = v.(telemetry.Report)
+		src := v.(telemetry.Report)
+		c13decodeInto(dst.(*telemetry.Report), &src)
 		return nil
 	}
 	vjson.UnmarshalHook = func(data []byte, dst any) error {
@@ -282,7 +292,8 @@ func VC13_merge() {
 		if !ok {
 			return errors.New("bad json")
 		}
-		*(dst.(*telemetry.Report)) = v.(telemetry.Report)
+		src := v.(telemetry.Report)
+		c13decodeInto(dst.(*telemetry.Report), &src)
 		return nil
 	}
 	encBefore := len(vjson.Log)
@@ -292,6 +303,28 @@ func VC13_merge() {
 	vrt.Assert(rw.code == 200, "merge succeeds")
 	if vrt.IsSymbolic() {
 		vrt.Assert(len(vjson.Log)-encBefore == k, "merging encodes exactly one record per report stored for the day")
+	}
+	// every merged record is the stored report (same order as the listing: a, b, c)
+	if mnd := vos.Lookup("/data/merged/" + day + ".json"); k > 0 {
+		vrt.Assert(mnd != nil, "merged object written")
+		if mnd != nil {
+			lines := bytes.Split(bytes.TrimRight(mnd.Data, "\n"), []byte("\n"))
+			vrt.Assert(len(lines) == k, "the merged object holds one line per stored report")
+			for i := 0; i < k && i < len(lines); i++ {
+				var got telemetry.Report
+				if vrt.IsSymbolic() {
+					v, ok := vjson.Lookup(lines[i])
+					vrt.Assert(ok, "a merged line decodes")
+					if !ok {
+						continue
+					}
+					got = v.(telemetry.Report)
+				} else {
+					vrt.Assert(realjson.Unmarshal(lines[i], &got) == nil, "a merged line decodes")
+				}
+				vrt.Assert(c13sameReport(&got, &stored[i]), "each merged record is exactly the stored report")
+			}
+		}
 	}
 	// chart that day
 	rw2 := &c13rw{}
@@ -389,4 +422,83 @@ func VC13_versions() {
 		return
 	}
 	vrt.Assert(*a.Data[0] == *b.Data[0] && *a.Data[1] == *b.Data[1], "data points of semver-equal versions keep one order under any map iteration order")
+}
+
+
+// c13decodeInto gives decoding a report the semantics encoding/json has for a destination
+// that is not empty: scalar fields are overwritten; a slice is truncated and refilled
+// reusing its backing array, and a non-nil pointer element found there is decoded *into*
+// (not replaced); an existing map is kept and the decoded entries are added to it; a JSON
+// null sets maps and slices to nil. The result shares nothing with src.
+func c13decodeInto(dst, src *telemetry.Report) {
+	dst.Week, dst.LastWeek, dst.X, dst.Config = src.Week, src.LastWeek, src.X, src.Config
+	if src.Programs == nil {
+		dst.Programs = nil
+		return
+	}
+	old := dst.Programs[:cap(dst.Programs)]
+	out := dst.Programs[:0]
+	if out == nil {
+		out = []*telemetry.ProgramReport{}
+	}
+	for i, sp := range src.Programs {
+		var p *telemetry.ProgramReport
+		if i < len(old) {
+			p = old[i]
+		}
+		if sp == nil {
+			out = append(out, nil)
+			continue
+		}
+		if p == nil {
+			p = &telemetry.ProgramReport{}
+		}
+		p.Program, p.Version, p.GoVersion, p.GOOS, p.GOARCH = sp.Program, sp.Version, sp.GoVersion, sp.GOOS, sp.GOARCH
+		p.Counters = c13decodeMap(p.Counters, sp.Counters)
+		p.Stacks = c13decodeMap(p.Stacks, sp.Stacks)
+		out = append(out, p)
+	}
+	dst.Programs = out
+}
+
+func c13decodeMap(dst, src map[string]int64) map[string]int64 {
+	if src == nil {
+		return nil
+	}
+	if dst == nil {
+		dst = map[string]int64{}
+	}
+	for k, v := range src {
+		dst[k] = v
+	}
+	return dst
+}
+
+
+func c13sameMap(a, b map[string]int64) bool {
+	if len(a) != len(b) {
+		return false
+	}
+	for k, v := range b {
+		if w, ok := a[k]; !ok || w != v {
+			return false
+		}
+	}
+	return true
+}
+
+func c13sameReport(a, b *telemetry.Report) bool {
+	if a.Week != b.Week || a.LastWeek != b.LastWeek || a.X != b.X || a.Config != b.Config || len(a.Programs) != len(b.Programs) {
+		return false
+	}
+	for i := range a.Programs {
+		p, q := a.Programs[i], b.Programs[i]
+		if p.Program != q.Program || p.Version != q.Version || p.GoVersion != q.GoVersion || p.GOOS != q.GOOS || p.GOARCH != q.GOARCH {
+			return false
+		}
+		if !c13sameMap(p.Counters, q.Counters) || !c13sameMap(p.Stacks, q.Stacks) {
+			return false
+		}
+	}
+	return true
 }
